@@ -124,3 +124,49 @@ func (l *LCG) Next(n int) int {
 	*l = *l*1664525 + 1013904223
 	return int(uint32(*l)>>8) % n
 }
+
+// IntTokens extracts the decimal integers (with sign) that occur in s, in order. The String methods of
+// the containers are not given a format by the properties; the oracles only require that the rendering
+// names the right elements, so they compare these tokens, not the punctuation.
+func IntTokens(s string) []int {
+	var out []int
+	for i := 0; i < len(s); {
+		j := i
+		if s[j] == '-' && j+1 < len(s) && s[j+1] >= '0' && s[j+1] <= '9' {
+			j++
+		}
+		if s[j] < '0' || s[j] > '9' {
+			i++
+			continue
+		}
+		k := j
+		n := 0
+		for k < len(s) && s[k] >= '0' && s[k] <= '9' {
+			n = n*10 + int(s[k]-'0')
+			k++
+		}
+		if j > i {
+			n = -n
+		}
+		out = append(out, n)
+		i = k
+	}
+	return out
+}
+
+// SameMultiset reports whether a and b hold the same integers with the same multiplicities.
+func SameMultiset(a, b []int) bool {
+	if len(a) != len(b) {
+		return false
+	}
+	m := map[int]int{}
+	for _, v := range a {
+		m[v]++
+	}
+	for _, v := range b {
+		if m[v]--; m[v] < 0 {
+			return false
+		}
+	}
+	return true
+}
